@@ -322,6 +322,24 @@ def opkind(op):
     return op[0]
 
 
+def long_history(j, c):
+    """hand-written long histories on one handle (plus the held second one): writes by column index around refused
+    and accepted column appends; every step is verified"""
+    if j == 0:
+        return [("write_column", "index", 0), ("bad", "append_column-duplicate-name"), ("append_column", "int64"),
+                ("write_column", "index", c), ("write_cell", "position", 1, c), ("bad", "write_column-index-out-of-range"),
+                ("append_rows", 1), ("bad", "append_column-duplicate-name"), ("append_column", "text"),
+                ("write_column", "index", c + 1), ("write_column", "name", c), ("reopen",), ("write_column", "index", c + 1),
+                ("bad", "append_column-wrong-length"), ("append_column", "float64"), ("write_column", "index", c + 2),
+                ("write_rows", [0]), ("bad", "write_column-index-out-of-range")]
+    return [("write_cell", "position", 0, 0), ("append_column", "bool"), ("write_cell", "position", 1, c), ("append_rows", 2),
+            ("bad", "append_rows-wrong-length"), ("write_rows", [0, 3]), ("append_column", "int8"), ("write_column", "index", c + 1),
+            ("bad", "write_rows-out-of-range"), ("append_rows", 1), ("write_column", "name", 0), ("units", "set"),
+            ("append_column", "text"), ("write_cell", "name", 4, c + 2), ("bad", "write_cell-column-out-of-range"),
+            ("write_rows", [4]), ("reopen",), ("write_column", "index", c + 2), ("append_rows", 1)]
+
+
+
 def BOUNDS(tier):
     return {"schemas": SCHEMAS_Q if tier == "quick" else SCHEMAS_T, "variants": 6, "initial_rows": [0, 2, 3],
             "depth": 2 if tier == "quick" else 3}
@@ -333,6 +351,9 @@ def cases(tier):
             yield {"k": "bigframe", "schema": sch, "rows": rows}
     for sch in (["int64", "text", "float64"], ["text"], ["bool", "int8"]):
         yield {"k": "bigframe", "schema": sch, "rows": 2, "repeat": 3}
+    for sch in (["int8"], ["int64", "text"], ["text", "float64", "bool"]):
+        for j in (0, 1):
+            yield {"schema": sch, "variant": "col_dict", "nrows": 2, "depth": 0, "tier": tier, "first": None, "long": j}
     yield from small_cases(tier)
 
 
@@ -561,7 +582,7 @@ def run_case(case):
             if ok and last:
                 ok = counterpart() and verify(r, df, m, opk, "after-reading-counterpart")
             if not ok:
-                if not last:
+                if not last and "long" not in case:
                     del r.violations[nv:]
                     r.bump("pruned_after_earlier_violation")
                 return False
@@ -586,7 +607,9 @@ def run_case(case):
 
     try:
         pending = []
-        if case.get("first") is None:
+        if "long" in case:
+            stack = [long_history(case["long"], len(sch))]
+        elif case.get("first") is None:
             stack = [[]]
         else:
             stack = [[enabled(Model(sch, nrows), case["tier"])[case["first"]]]]
